@@ -117,3 +117,69 @@ tree_plan('C12', 150, 4000, "random trees and lone files x prefixes x separators
 tree_plan('C18', 120, 3000, "random trees and lone files with output absolute / relative / nested in the input / pre-populated / absent (stdout), sandbox "
           "snapshot (path, sha256) before and after; stdout compared with the pages of the -o run; non-trivial = at least 2 files written or a page printed",
           TREE_ASSUME)
+
+
+# ---- text-level properties C04, C05, C06 -------------------------------------------------------------------------------
+import s_text
+
+TEXT_ASSUME = ["the ANTLR runtime's lexer/parser semantics for this grammar are modelled by hand (Lex.lean, Parse.lean) and validated token for "
+               "token, including skipped tokens and error positions, against the generated lexer on random, exhaustive and corpus inputs",
+               "lexical and syntactic errors are compared as one class (ANTLR's lazy token look-ahead decides which is reported first)"]
+
+
+def _c04_run(tier, seed, out, drv):
+    q = tier == 'quick'
+    s_text.family_suite(seed, 120 if q else 3000, 4 if q else 8, out, drv, budget_s=70 if q else 1200)
+    s_text.lex_suite('C04', seed, 1500 if q else 30000, out, drv, exhaustive_len=3 if q else 5, corpus_files=15 if q else 300)
+
+
+def _c04_search(tier, seed, out, drv, dis):
+    s_text.family_suite(seed + 7919, 500 if tier == 'quick' else 3000, 6, out, drv, budget_s=200 if tier == 'quick' else 1200)
+    suites.module_suite('C04', seed + 7919, 600, out, drv, budget_s=100)
+
+
+PLANS['C04'] = dict(run=_c04_run, search=_c04_search, replay=s_text.family_replay, replay_kind='layout-family',
+                    rule="one abstract module rendered under k layouts (canonical, mild, wild: any amount/kind of filler incl. comments that look "
+                         "like code or doccomment delimiters, arguments spread over lines, tabs/spaces, doc-block re-indentation, command-name "
+                         "case) plus the CRLF conversion, all fed to the real pipeline and compared byte-wise (CRLF modulo '\\r' and blank lines); "
+                         "plus scanner model vs ANTLR on random strings, all strings up to a length over a 12-symbol alphabet, and shipped CMake "
+                         "modules; non-trivial = module with >= 2 commands", assumptions=TEXT_ASSUME)
+
+
+def _c05_run(tier, seed, out, drv):
+    q = tier == 'quick'
+    s_text.accept_suite(seed, 300 if q else 6000, out, drv, budget_s=60 if q else 1200)
+    s_text.corpus_suite(60 if q else 1100, seed, out, drv)
+    s_text.lex_suite('C05', seed, 1500 if q else 30000, out, drv, exhaustive_len=0 if q else 5)
+    s_text.cmake_trace_suite(seed, 150 if q else 4000, out, drv)
+
+
+def _c05_search(tier, seed, out, drv, dis):
+    s_text.accept_suite(seed + 7919, 1500, out, drv, budget_s=240)
+
+
+PLANS['C05'] = dict(run=_c05_run, search=_c05_search, replay=s_text.accept_replay, replay_kind='module',
+                    rule="grammar-driven decorated modules (every argument form x special characters x comment shapes adjacent to arguments, "
+                         "wild layouts): real parse tree's command/argument lists vs the abstract module, real pipeline must finish; CMake's own "
+                         "raw argument lists (--trace-format=json-v1) as independent reference; the .cmake modules shipped with CMake 3.25; "
+                         "scanner model vs ANTLR on random strings", assumptions=TEXT_ASSUME + [
+                             "legacy unquoted arguments, the degenerate argument `[=`, recursion-limit nesting and non-UTF-8 input are outside the guarantee"])
+
+
+def _c06_run(tier, seed, out, drv):
+    q = tier == 'quick'
+    s_text.fault_suite(seed, 12 if q else 400, out, drv, budget_s=80 if q else 1500, pairs=not q)
+    s_text.cli_fault_suite(seed, 15 if q else 60, out, drv)
+    s_text.lex_suite('C06', seed, 800 if q else 20000, out, drv)
+
+
+def _c06_search(tier, seed, out, drv, dis):
+    s_text.fault_suite(seed + 7919, 60, out, drv, budget_s=240, pairs=True)
+
+
+PLANS['C06'] = dict(run=_c06_run, search=_c06_search, replay=s_text.fault_replay, replay_kind='text',
+                    rule="every fault kind (stray/unterminated quote, backslash before alphanumeric or at EOF, unterminated #[[ / #[=[, extra/"
+                         "missing parenthesis, bare word) inserted at EVERY character position outside comments of generated valid modules (and "
+                         "deletion of every parenthesis/quote); thorough: also random pairs of faults; the real Documenter must raise iff the "
+                         "model errs; CLI runs of main() on faulty files must exit non-zero and leave no page; non-trivial = faulty file the "
+                         "model rejects", assumptions=TEXT_ASSUME)
